@@ -155,6 +155,10 @@ pub fn run_line(line: &str) -> String {
                 Ok(_) => "ok".into(),
                 Err(e) => classify_err(&e.to_string()),
             },
+            "S" => match std::fs::metadata(&path) {
+                Ok(m) => format!("size:{}", m.len()),
+                Err(_) => "err:other".into(),
+            },
             "F" => match db.as_ref().unwrap().flush() {
                 Ok(()) => "ok".into(),
                 Err(e) => classify_err(&e.to_string()),
